@@ -255,7 +255,7 @@ func zero(t types.Type) value {
 		}
 		return s
 	case *types.Chan:
-		return chan value(nil)
+		return (*chanStub)(nil)
 	case *types.Map:
 		return (*omap)(nil)
 	case *types.Signature:
@@ -1075,7 +1075,13 @@ func callBuiltin(caller *frame, fn *ssa.Builtin, args []value) value {
 				m.ents = nil
 			}
 		case []value:
-			panic(engineError{"clear of a slice is not supported"})
+			if st, ok := fn.Type().(*types.Signature).Params().At(0).Type().Underlying().(*types.Slice); ok {
+				for k := range m {
+					m[k] = zero(st.Elem())
+				}
+			} else {
+				panic(engineError{"clear of a slice of unknown element type"})
+			}
 		}
 		return nil
 
